@@ -57,7 +57,7 @@ def h_flavour(k0: int, k1: int, k2: int, k3: int, k4: int, k5: int, k6: int, k7:
 # ---- ExitStack: exit callbacks and callbacks under every callable flavour -----------------------
 def h_exit_flavour(z: int, kind: int, beh: int, raises: bool):
     """
-    pre: 0 <= z <= 3 and 0 <= kind <= 1 and 0 <= beh <= 2
+    pre: 0 <= z <= 4 and 0 <= kind <= 1 and 0 <= beh <= 2
     post: _[0]
     post: not _[1]
     """
@@ -90,6 +90,7 @@ def h_exit_flavour(z: int, kind: int, beh: int, raises: bool):
         async def prog():
             try:
                 async with A.ExitStack() as stack:
+                    stack.callback(log.append, "lower-callback-ran")  # registered first: runs last
                     if kind == 0:
                         stack.push(W.fn("exit", exit_impl, flavour))
                     else:
@@ -111,7 +112,7 @@ def h_exit_flavour(z: int, kind: int, beh: int, raises: bool):
     ok = True
     if r0 != r1 or l0 != l1:
         ok = fail("ExitStack:exit-callback-behaves-differently-under-flavour", (ff, r0, r1, l0, l1))
-    if not l1:
+    if len(l1) < 2:
         ok = fail("ExitStack:exit-callback-never-ran", (ff, r1)) and ok
     return finish(ok, ff != "def", ("exit_flavour", ff, kind, beh, bool(raises)))
 
@@ -122,7 +123,7 @@ SUM_POOL = (1, 1.0, True, 0.1, 0.2, 0.3, -1, 2.5, "a", "b")
 
 def h_sum_flavour(x: int, n: int, s0: int, s1: int, s2: int, ss: int):
     """
-    pre: 0 <= x <= 4 and 0 <= n <= P("N", 2) and -1 <= ss < 10
+    pre: 0 <= x <= 6 and 0 <= n <= P("N", 2) and -1 <= ss < 10
     pre: P("x") is None or x == P("x")
     pre: P("s0") is None or s0 == P("s0")
     pre: 0 <= s0 < 10 and 0 <= s1 < 10 and 0 <= s2 < 10
@@ -316,8 +317,8 @@ def _grid():
 GRID = {
     "h_flavour": _grid,
     "h_types": lambda: [(i,) for i in range(56)],
-    "h_exit_flavour": lambda: [(z, k, b, r) for z in range(4) for k in (0, 1) for b in range(3) for r in (False, True)],
-    "h_sum_flavour": lambda: [(x, n, a, b, 5, ss) for x in range(5) for n in (0, 2, 3) for a in (0, 3, 8) for b in (4, 9) for ss in (-1, 3, 8)],
+    "h_exit_flavour": lambda: [(z, k, b, r) for z in range(5) for k in (0, 1) for b in range(3) for r in (False, True)],
+    "h_sum_flavour": lambda: [(x, n, a, b, 5, ss) for x in range(7) for n in (0, 2, 3) for a in (0, 3, 8) for b in (4, 9) for ss in (-1, 3, 8)],
 }
 
 TOOLS_FN = ["filter", "filterfalse", "takewhile", "dropwhile", "accumulate_f", "accumulate_f_init", "iter_sentinel", "starmap"]
@@ -336,25 +337,25 @@ def jobs(tier):
 
     N1 = 2 if q else 3
     for op in TOOLS_FN:
-        add("h_flavour", op=op, S=1, N=N1, X=(0, 4), Z=(0, 3))
+        add("h_flavour", op=op, S=1, N=N1, X=(0, 6), Z=(0, 4))
     for op in TOOLS_NOFN:
         kw = {"form": 2, "PR": 2, "b0": False, "b1": False, "b2": False} if op == "islice" else {}
-        add("h_flavour", op=op, S=1, N=N1, X=(0, 4), **kw)
+        add("h_flavour", op=op, S=1, N=N1, X=(0, 6), **kw)
     for op in AGGS_FN:
-        add("h_flavour", op=op, S=1, N=N1, X=(0, 4), Z=(0, 3), b1=True)
+        add("h_flavour", op=op, S=1, N=N1, X=(0, 6), Z=(0, 4), b1=True)
     for op in AGGS_NOFN + ["min", "sorted", "nlargest"]:
-        add("h_flavour", op=op, S=1, N=N1, X=(0, 4), b1=False, skip_seq=(op == "sorted"))
+        add("h_flavour", op=op, S=1, N=N1, X=(0, 6), b1=False, skip_seq=(op == "sorted"))
     for op in ("zip", "zip_longest", "chain", "chain_from", "compress"):
-        add("h_flavour", op=op, S=2, N=(1 if q else 2), X=(0, 4), Y=(0, 4))
-    add("h_flavour", op="map", S=2, N=1, X=(0, 4), Y=(0, 4), Z=(0, 3))
-    add("h_flavour", op="starmap", S=2, N=1, X=(0, 4), Z=(0, 3))
+        add("h_flavour", op=op, S=2, N=(1 if q else 2), X=(0, 6), Y=(0, 6))
+    add("h_flavour", op="map", S=2, N=1, X=(0, 6), Y=(0, 6), Z=(0, 4))
+    add("h_flavour", op="starmap", S=2, N=1, X=(0, 6), Z=(0, 4))
     for b0 in (False, True):
         for b1 in (False, True):
-            add("h_flavour", op="merge", S=2, N=(1 if q else 2), X=(0, 4), Y=(0, 4), Z=((0, 3) if b1 else (0, 0)), b0=b0, b1=b1)
-    add("h_flavour", op="zip", S=3, N=1, X=(0, 4), Y=(0, 4))
+            add("h_flavour", op="merge", S=2, N=(1 if q else 2), X=(0, 6), Y=(0, 6), Z=((0, 4) if b1 else (0, 0)), b0=b0, b1=b1)
+    add("h_flavour", op="zip", S=3, N=1, X=(0, 6), Y=(0, 6))
     add("h_types")
     add("h_exit_flavour")
-    for x in range(1, 5):
+    for x in range(1, 7):
         if q:
             add("h_sum_flavour", x=x, N=2)
         else:
@@ -364,7 +365,7 @@ def jobs(tier):
 
 
 BOUNDS = {
-    "quick": "every iterable parameter takes each of {list, __getitem__ sequence, sync iterator, async generator, class-based async iterator} and every callable parameter each of {def, async def, partial(async def), callable object returning a coroutine} by symbolic selectors (up to 5x5x4 combinations per tool); data N<=2 (two-source tools N<=1), keys unbounded; result compared with the stdlib on canonical flavours; ExitStack.push / callback with each callable flavour x {falsy, truthy, raising} x block outcome; sum over numbers incl. inexact floats and strings (N<=2, thorough 3, any start) under every flavour; return-type category checked for 55 public call forms covering asyncstdlib.__all__",
+    "quick": "every iterable parameter takes each of {list, __getitem__ sequence, sync iterator, async generator, class-based async iterator with aclose, without aclose, and one that is also sync-iterable} and every callable parameter each of {def, async def, partial(async def), callable object returning a coroutine, def returning a ready awaitable} by symbolic selectors (up to 7x7x5 combinations per tool); data N<=2 (two-source tools N<=1), keys unbounded; result compared with the stdlib on canonical flavours; ExitStack.push / callback with each callable flavour x {falsy, truthy, raising} x block outcome; sum over numbers incl. inexact floats and strings (N<=2, thorough 3, any start) under every flavour; return-type category checked for 55 public call forms covering asyncstdlib.__all__",
     "thorough": "N<=3 (two-source tools N<=2)",
 }
 OUTSIDE = ["sorted(key=None) over a __getitem__-only sequence (CrossHair's sorted model rejects such sequences; covered natively by the pre-flight grid only)", "callables that return an awaitable on some calls and a plain value on others", "data sizes above the bound (flavour handling does not depend on data; stated, not proved)", "exit callbacks of ExitStack beyond push/callback with one entry (C14 covers stacks)"]
